@@ -15,6 +15,7 @@ import (
 	"golang.org/x/perf/benchproc"
 	"pgregory.net/rapid"
 	"verif/harness/lib/refbench"
+	"verif/harness/lib/refexpr"
 	"verif/harness/lib/vcase"
 )
 
@@ -158,6 +159,27 @@ func Check(c Case) (v vcase.Verdict) {
 		// literal filters (values with backslash/quote characters are C07's domain)
 		if strings.ContainsAny(wv, "\\\"") {
 			continue
+		}
+		// the same term written with unquoted words, when key and value need no quoting
+		if refexpr.BareOK(k, false) && wv != "" && refexpr.BareOK(wv, true) {
+			f, err := benchproc.NewFilter(k + ":" + wv)
+			if err != nil {
+				v.Failf("NewFilter(%s:%s) (unquoted words): %v", k, wv, err)
+				return
+			}
+			if m, _ := f.Match(res); !m.All() {
+				v.Failf("name %q config %v: filter %s:%s (unquoted words) does not match, reference extraction %q", name, cfgRef, k, wv, wv)
+				return
+			}
+			var bp benchproc.ProjectionParser
+			proj, err := bp.Parse(k, nil)
+			if err != nil || len(proj.Fields()) != 1 || proj.Fields()[0].Name != k {
+				v.Failf("Parse(%s) (unquoted word): %v", k, err)
+				return
+			}
+			if !utf8.ValidString(k) || len(k) != len([]rune(k)) {
+				v.Label("unquoted_non_ascii_word")
+			}
 		}
 		// a fixed value list on the key keeps exactly the results whose extracted value is listed
 		for _, probe := range []struct {
@@ -395,9 +417,9 @@ func genName(t *rapid.T) string {
 	var sb strings.Builder
 	word := rapid.OneOf(
 		rapid.StringMatching(`[a-zA-Z0-9_]{0,6}`),
-		rapid.SampledFrom([]string{"", "é", "日本", "\xff", "\xc3", "8", "-8", "a-b", "=", "k=v", "gomaxprocs", "0", "-"}),
+		rapid.SampledFrom([]string{"", "é", "日本", "\xff", "\xc3", "8", "-8", "a-b", "=", "k=v", "gomaxprocs", "0", "-", "roma", "Šą", "à"}),
 	)
-	keyw := rapid.SampledFrom([]string{"k", "size", "gomaxprocs", "a", "é", "", "k2", "7", "gomaxprocs2", "gomaxprocs_limit", "sizeclass", "kk"})
+	keyw := rapid.SampledFrom([]string{"k", "size", "gomaxprocs", "a", "é", "", "k2", "7", "gomaxprocs2", "gomaxprocs_limit", "sizeclass", "kk", "città", "ąk"})
 	sb.WriteString(word.Draw(t, "base"))
 	n := rapid.IntRange(0, 5).Draw(t, "nseg")
 	for i := 0; i < n; i++ {
@@ -435,7 +457,7 @@ func Gen(t *rapid.T) Case {
 			File: rapid.Bool().Draw(t, "file"),
 		})
 	}
-	keys := rapid.SliceOfN(rapid.SampledFrom([]string{"/k", "/size", "/a", "/é", "/7", "/k2", "goos", "a", "k", "absent", ".file", ".label", "/gomaxprocs", "gomaxprocs", "/absent", "/gomaxprocs2", "/gomaxprocs_limit", "/gomaxproc", "/sizeclass", "/siz", "/kk", "cpu/model", "a/k", "k/"}), 0, 6).Draw(t, "keys")
+	keys := rapid.SliceOfN(rapid.SampledFrom([]string{"/k", "/size", "/a", "/é", "/7", "/k2", "goos", "a", "k", "absent", ".file", ".label", "/gomaxprocs", "gomaxprocs", "/absent", "/gomaxprocs2", "/gomaxprocs_limit", "/gomaxproc", "/sizeclass", "/siz", "/kk", "cpu/model", "a/k", "k/", "/città", "/ąk"}), 0, 6).Draw(t, "keys")
 	return mkCase(name, cfg, keys)
 }
 
